@@ -4,6 +4,7 @@
 set -u
 B="$1"
 cd /verif
+if [ -n "$(git status --porcelain)" ]; then echo "working tree not clean"; exit 1; fi
 git merge --no-commit --no-ff "$B" >/tmp/merge_$B.log 2>&1
 # infrastructure / generated files: keep main's version
 for f in MANIFEST.json lean/DfModel/Drv/All.lean lean/DfModel.lean harness/hplan/src/main.rs harness/hfull/src/main.rs harness/.cargo/config.toml harness/Cargo.toml harness/Cargo.lock tools/gen_registry.py tools/mk_agent_wt.sh check setup.sh AGENT_GUIDE.md DESIGN.md props/hooks.json .gitignore harness/hutil/src/lib.rs; do
